@@ -101,7 +101,9 @@ def g3_jobs(harness, runs, workers=12, max_len=600):
     """libFuzzer campaign (thorough tier). Each worker is an independent libFuzzer
     process on a shared corpus directory seeded from seeds/<prop>/corpus."""
     def mk(ctx, Job):
-        exe = ctx['exes'][(harness, 'fuzz')]
+        exe = ctx['exes'].get((harness, 'fuzz'))
+        if not exe:
+            return []       # the tree's headers are not valid C++: no libFuzzer build (see vcheck build_harness)
         corpus = os.path.join(ctx['outdir'], 'corpus', harness)
         os.makedirs(corpus, exist_ok=True)
         sd = os.path.join(ctx['verif'], 'seeds', ctx['prop'], 'corpus')
